@@ -171,19 +171,23 @@ impl tower::Service<jsonrpsee_http_client::HttpRequest> for HMock {
 	}
 }
 
-pub fn http_client(id_kind: IdK, mock: HMock) -> jsonrpsee_http_client::HttpClient<impl jsonrpsee_core::middleware::RpcServiceT<
+/// `variant`: bit 0 = an RPC middleware layer (a second logger) is set, bit 1 = the id format is chosen after the
+/// middleware setters instead of before them (no setter may reset another)
+pub fn http_client(id_kind: IdK, mock: HMock, variant: u8) -> jsonrpsee_http_client::HttpClient<impl jsonrpsee_core::middleware::RpcServiceT<
 	MethodResponse = Result<jsonrpsee_core::client::MiddlewareMethodResponse, jsonrpsee_core::client::Error>,
 	BatchResponse = Result<jsonrpsee_core::client::MiddlewareBatchResponse, jsonrpsee_core::client::Error>,
 	NotificationResponse = Result<jsonrpsee_core::client::MiddlewareNotifResponse, jsonrpsee_core::client::Error>,
 > + Send + Sync> {
-	jsonrpsee_http_client::HttpClientBuilder::new()
-		.id_format(match id_kind {
-			IdK::Number => jsonrpsee_core::client::IdKind::Number,
-			IdK::String => jsonrpsee_core::client::IdKind::String,
-		})
-		.set_http_middleware(tower::ServiceBuilder::new().layer_fn(move |_backend: jsonrpsee_http_client::HttpBackend| mock.clone()))
-		.build("http://localhost:9999")
-		.expect("http client")
+	use jsonrpsee_core::middleware::{RpcServiceBuilder, layer::RpcLoggerLayer};
+	let kind = match id_kind {
+		IdK::Number => jsonrpsee_core::client::IdKind::Number,
+		IdK::String => jsonrpsee_core::client::IdKind::String,
+	};
+	let rpc = RpcServiceBuilder::new().option_layer(if variant & 1 == 1 { Some(RpcLoggerLayer::new(16)) } else { None });
+	let http = tower::ServiceBuilder::new().layer_fn(move |_backend: jsonrpsee_http_client::HttpBackend| mock.clone());
+	let b = jsonrpsee_http_client::HttpClientBuilder::new();
+	let b = if variant & 2 == 0 { b.id_format(kind).set_http_middleware(http).set_rpc_middleware(rpc) } else { b.set_rpc_middleware(rpc).set_http_middleware(http).id_format(kind) };
+	b.build("http://localhost:9999").expect("http client")
 }
 
 impl SubCheck for Positional {
@@ -311,7 +315,7 @@ impl SubCheck for Positional {
 						single => (200, json!({"jsonrpc":"2.0","id":single["id"].clone(),"result":"warm"}).to_string().into_bytes()),
 					}),
 				};
-				let client = http_client(case.id_kind, mock);
+				let client = http_client(case.id_kind, mock, case.warmup);
 				for _ in 0..case.warmup {
 					let _ = client.request::<Value, _>("warmup", rpc_params![]).await;
 				}
@@ -466,7 +470,7 @@ impl SubCheck for Typed {
 						(200, Value::Array(arr).to_string().into_bytes())
 					}),
 				};
-				let client = http_client(case.id_kind, mock);
+				let client = http_client(case.id_kind, mock, case.kinds.len() as u8);
 				let got: Res = match client.batch_request::<Nonce>(b).await {
 					Ok(r) => collect(r),
 					Err(e) => Err(format!("{e:?}")),
